@@ -355,6 +355,216 @@ def alias_params(fnode):
     return len(targets)
 
 
+def _bound_names(fnode):
+    """Names bound in the scope of fnode itself (parameters, assignment /
+    loop / with / except / import targets), not those bound only inside
+    comprehensions or nested functions."""
+    out = set()
+    a = fnode.args
+    for x in a.posonlyargs + a.args + a.kwonlyargs:
+        out.add(x.arg)
+    if a.vararg:
+        out.add(a.vararg.arg)
+    if a.kwarg:
+        out.add(a.kwarg.arg)
+
+    def visit(n):
+        for ch in ast.iter_child_nodes(n):
+            if isinstance(ch, (ast.FunctionDef, ast.AsyncFunctionDef,
+                               ast.ClassDef)):
+                out.add(ch.name)
+                continue
+            if isinstance(ch, ast.Lambda):
+                continue
+            if isinstance(ch, (ast.ListComp, ast.SetComp, ast.DictComp,
+                               ast.GeneratorExp)):
+                # only the first iterable is evaluated in this scope
+                visit(ch.generators[0].iter)
+                continue
+            if isinstance(ch, ast.Name) and isinstance(ch.ctx, (ast.Store,
+                                                                 ast.Del)):
+                out.add(ch.id)
+            elif isinstance(ch, ast.ExceptHandler) and ch.name:
+                out.add(ch.name)
+            elif isinstance(ch, ast.alias):
+                out.add((ch.asname or ch.name).split(".")[0])
+            visit(ch)
+    visit(fnode)
+    return out
+
+
+def extract_methods(tree, qn, limit=8):
+    """Like extract_helpers, for methods: the expression moves into a new
+    private method of the same class, called through self."""
+    return extract_helpers(tree, qn, limit, as_method=True)
+
+
+def extract_helpers(tree, qn, limit=8, as_method=False):
+    """`x = <expr>` -> `x = _xh_k(<locals used>)` with a new module-level
+    function `_xh_k(<locals used>): return <expr>` (helper extraction, the
+    most common step of a refactoring).  The expression is evaluated at the
+    same point with the same values; expressions with yield / await / walrus
+    / lambda / super / generator results are left alone."""
+    chain = []          # enclosing functions, outermost first
+
+    def find(node, prefix, stack):
+        for ch in ast.iter_child_nodes(node):
+            if isinstance(ch, (ast.FunctionDef, ast.AsyncFunctionDef)):
+                if prefix + ch.name == qn:
+                    chain.extend(stack + [ch])
+                    return True
+                if find(ch, prefix + ch.name + ".", stack + [ch]):
+                    return True
+            elif isinstance(ch, ast.ClassDef):
+                if find(ch, prefix + ch.name + ".", stack):
+                    return True
+            elif isinstance(ch, (ast.If, ast.Try, ast.With, ast.For,
+                                 ast.While)):
+                if find(ch, prefix, stack):
+                    return True
+        return False
+    if not find(tree, "", []):
+        return 0
+    fnode = chain[-1]
+    if isinstance(fnode, ast.AsyncFunctionDef):
+        return 0
+    owner_cls = None
+    if as_method:
+        if len(chain) != 1 or not fnode.args.args or \
+                fnode.args.args[0].arg != "self" or fnode.decorator_list:
+            return 0
+        for c in ast.walk(tree):
+            if isinstance(c, ast.ClassDef) and fnode in c.body:
+                owner_cls = c
+        if owner_cls is None:
+            return 0
+    local_names = set()
+    for f in chain:
+        local_names |= _bound_names(f)
+    declared = set()
+    for n in ast.walk(fnode):
+        if isinstance(n, (ast.Global, ast.Nonlocal)):
+            declared |= set(n.names)
+    existing = {n.id for n in ast.walk(tree) if isinstance(n, ast.Name)} | \
+        {n.name for n in ast.walk(tree)
+         if isinstance(n, (ast.FunctionDef, ast.ClassDef))}
+    helpers = []
+    count = [0]
+
+    def eligible(e):
+        if not isinstance(e, (ast.BinOp, ast.Call, ast.Compare, ast.BoolOp,
+                              ast.Subscript, ast.IfExp, ast.Tuple, ast.List,
+                              ast.ListComp, ast.UnaryOp)):
+            return False
+        loads = 0
+        for n in ast.walk(e):
+            if isinstance(n, (ast.Yield, ast.YieldFrom, ast.Await,
+                              ast.NamedExpr, ast.Lambda, ast.Starred)):
+                return False
+            if isinstance(n, ast.GeneratorExp) and n is e:
+                return False
+            if isinstance(n, ast.Call) and isinstance(n.func, ast.Name) and \
+                    n.func.id in ("super", "locals", "vars", "eval", "exec",
+                                  "globals"):
+                return False
+            if isinstance(n, ast.Name) and isinstance(n.ctx, ast.Load):
+                loads += 1
+        return loads >= 2
+
+    def free_locals(e):
+        comp_bound = set()
+        for n in ast.walk(e):
+            if isinstance(n, ast.comprehension):
+                for t in ast.walk(n.target):
+                    if isinstance(t, ast.Name):
+                        comp_bound.add(t.id)
+        out = []
+        for n in ast.walk(e):
+            if isinstance(n, ast.Name) and isinstance(n.ctx, ast.Load) and \
+                    n.id in local_names and n.id not in declared and \
+                    n.id not in out:
+                if n.id in comp_bound and n.id not in _bound_names(fnode):
+                    continue
+                out.append(n.id)
+        return out
+
+    def make(e):
+        k = 0
+        while True:
+            name = "_xh_%s_%d" % (fnode.name.strip("_"), count[0] + k)
+            if name not in existing:
+                break
+            k += 1
+        existing.add(name)
+        params = free_locals(e)
+        if as_method:
+            name = name.replace("_xh_", "_xm_")
+            params = ["self"] + [p_ for p_ in params if p_ != "self"]
+            h = ast.FunctionDef(
+                name=name,
+                args=ast.arguments(posonlyargs=[],
+                                   args=[ast.arg(arg=p_) for p_ in params],
+                                   kwonlyargs=[], kw_defaults=[], defaults=[]),
+                body=[ast.Return(value=e)], decorator_list=[], type_params=[])
+            helpers.append(h)
+            count[0] += 1
+            return ast.Call(
+                func=ast.Attribute(value=ast.Name(id="self", ctx=ast.Load()),
+                                   attr=name, ctx=ast.Load()),
+                args=[ast.Name(id=p_, ctx=ast.Load()) for p_ in params[1:]],
+                keywords=[])
+        h = ast.FunctionDef(
+            name=name,
+            args=ast.arguments(posonlyargs=[], args=[ast.arg(arg=p_)
+                                                     for p_ in params],
+                               kwonlyargs=[], kw_defaults=[], defaults=[]),
+            body=[ast.Return(value=e)], decorator_list=[], type_params=[])
+        helpers.append(h)
+        count[0] += 1
+        return ast.Call(func=ast.Name(id=name, ctx=ast.Load()),
+                        args=[ast.Name(id=p_, ctx=ast.Load())
+                              for p_ in params], keywords=[])
+
+    def walk_body(stmts):
+        for st in stmts:
+            if count[0] >= limit:
+                return
+            if isinstance(st, (ast.FunctionDef, ast.AsyncFunctionDef,
+                               ast.ClassDef)):
+                continue
+            if isinstance(st, ast.Assign) and len(st.targets) == 1 and \
+                    isinstance(st.targets[0], ast.Name) and eligible(st.value):
+                st.value = make(st.value)
+            elif isinstance(st, ast.Return) and st.value is not None and \
+                    eligible(st.value):
+                st.value = make(st.value)
+            for field in ("body", "orelse", "finalbody"):
+                sub = getattr(st, field, None)
+                if isinstance(sub, list) and sub and \
+                        isinstance(sub[0], ast.stmt):
+                    walk_body(sub)
+            for h in getattr(st, "handlers", []) or []:
+                walk_body(h.body)
+    walk_body(fnode.body)
+    if not helpers:
+        return 0
+    if as_method:
+        owner_cls.body.extend(helpers)
+        return len(helpers)
+    # after the leading imports / docstring of the module
+    pos = 0
+    for i, st in enumerate(tree.body):
+        if isinstance(st, (ast.Import, ast.ImportFrom)) or (
+                isinstance(st, ast.Expr) and isinstance(st.value, ast.Constant)):
+            pos = i + 1
+    tree.body[pos:pos] = helpers
+    return len(helpers)
+
+
+PER_FUNCTION_IN_MODULE = {
+    "extract-helpers": extract_helpers,
+    "extract-methods": extract_methods,
+}
 PER_FUNCTION = {
     "alias-params": alias_params,
     "rename-locals": rename_locals,
@@ -428,6 +638,11 @@ def enumerate_tasks(ops):
                 t2 = copy.deepcopy(tree)
                 if PER_MODULE[op](t2):
                     tasks.append((op, m.relpath, None))
+            elif op in PER_FUNCTION_IN_MODULE:
+                for qn, fnode in _functions(tree):
+                    t2 = copy.deepcopy(tree)
+                    if PER_FUNCTION_IN_MODULE[op](t2, qn):
+                        tasks.append((op, m.relpath, qn))
             else:
                 for qn, fnode in _functions(tree):
                     f2 = copy.deepcopy(fnode)
@@ -454,6 +669,8 @@ def _run(args):
             tree = ast.parse(open(path).read())
             if qn is None:
                 PER_MODULE[op](tree)
+            elif op in PER_FUNCTION_IN_MODULE:
+                PER_FUNCTION_IN_MODULE[op](tree, qn)
             else:
                 for q, fnode in _functions(tree):
                     if q == qn:
@@ -488,7 +705,7 @@ def sweep(ops=None, props=None, jobs=16, limit=None, seed=0, modules=None):
     from . import props as P
     t0 = time.time()
     ops = ops or sorted(PER_FUNCTION) + sorted(PER_MODULE) + \
-        ["rename-private-attr"]
+        sorted(PER_FUNCTION_IN_MODULE) + ["rename-private-attr"]
     props = props or sorted(P.PROPS)
     tasks = enumerate_tasks(ops)
     if modules is not None:
